@@ -120,7 +120,23 @@ func (sw *StreamWriter) PrepareIncremental() error {
 		if err := sw.db.Flatten(3); err != nil {
 			return fmt.Errorf("error during flatten in StreamWriter: %w", err)
 		}
+		// Flatten returns without doing anything when a single level holds all the tables. If that
+		// level is L0 it still has to be emptied: the tables we are about to write go below L0,
+		// and newer versions must never end up below older ones (a compaction could then drop a
+		// streamed deletion marker while the version it hides is still sitting in L0).
+		for sw.db.lc.levels[0].numTables() > 0 {
+			cp := compactionPriority{level: 0, score: 1.71, t: sw.db.lc.levelTargets()}
+			if err := sw.db.lc.doCompact(175, cp); err != nil {
+				return fmt.Errorf("error while compacting L0 in StreamWriter: %w", err)
+			}
+		}
 		sw.prevLevel = len(sw.db.Levels()) - 1
+		// Flatten consolidates the tables into the deepest level that held data, which is not
+		// necessarily the last level. Move up until the level we are going to write to
+		// (prevLevel-1) is free, so that our tables never share a level with existing ones.
+		for sw.prevLevel > 1 && sw.db.Levels()[sw.prevLevel-1].NumTables > 0 {
+			sw.prevLevel--
+		}
 	}
 	return nil
 }
